@@ -502,6 +502,9 @@ func linsimBatch(lb *LinBinding, job *Job, n int, acc *statAcc, res *Result) {
 		if job.Budget > 0 && time.Since(start).Seconds() > job.Budget {
 			break
 		}
+		if i%500 == 0 {
+			progress(job, "linsim %d", i)
+		}
 		c := genLinCase(r)
 		ops, picks, yields := runLin(lb, c, false)
 		c.Picks = picks
